@@ -17,11 +17,11 @@ from props import c09_util as U9
 
 PROP = "C09"
 LEVEL = "proof"
-GEN_UNITS = []
-COQ_TARGETS = ["Props/C09.vo", "Model/C09Exec.vo", "Model/C09Init.vo", "Model/Harness.vo"]
-THEOREM_FILES = ["Props/C09.v"]
+GEN_UNITS = ["GenCpAls"]
+COQ_TARGETS = ["Props/C09.vo", "Props/C09b.vo", "Props/C09c.vo", "Model/C09Exec.vo", "Model/C09Init.vo", "Model/C09Replay.vo", "Model/Harness.vo"]
+THEOREM_FILES = ["Props/C09.v", "Props/C09b.v", "Props/C09c.v"]
 COQ_IMPORTS = ("From Coq Require Import List ZArith QArith Qcanon Bool.\n"
-               "From PV Require Import Base.Index Np.Array Model.Sparse Model.Repr Model.Harness Model.C09Als Model.C09Exec Model.C09Init.\n")
+               "From PV Require Import Base.Index Np.Array Model.Sparse Model.Repr Model.Harness Model.C09Als Model.C09Exec Model.C09Init Model.C09Replay.\n")
 RULE = ("integer data tensors 3x3x2 .. 4x3x2, 2-way and 4-way (<= 24 entries) held as dense / sparse (3 stored orders) / Tucker / "
         "sum tensors; ranks 1-2; given integer starts (with and without weights), seeded random starts and init='nvecs' (dense / sparse / "
         "Tucker data); PLANTED rank-3 (3x3x3, 4x3x3, 3x4x3) and rank-4 (4x4x4) problems = exact integer Kruskal structure + small integer "
@@ -39,10 +39,15 @@ RULE = ("integer data tensors 3x3x2 .. 4x3x2, 2-way and 4-way (<= 24 entries) he
         "dimorder x proper optdims subsets (requested order ending with a non-optimised mode); maxiters 0 (every holder, dimorder / optdims / "
         "printitn 0,1,3 / fixsigns off / negative start weights) and 1; printitn in {0,1,2,3,5,7}; EVERY run repeated on the same data object "
         "with the returned guess object as explicit start (identical model / fit / residual / iters / guess required); seeded starts compared "
-        "in Coq with the captured-stream model init_random.")
+        "in Coq with the captured-stream model init_random. Wave 4: the recorded mttkrp arguments of EVERY sweep replayed forward through "
+        "the model's update in exact rationals (one update per sweep with rotating mode position; every update + the returned model in one "
+        "case of 8 / 6; an update whose exact Gram-Hadamard conditioning ratio is < 1e-3 is only certified backward); dense data stored as "
+        "uint8 / int8 / int16 / int32 / int64 / float32 / float64 with sums of squares beyond the narrow type's range (alone, inside a sum "
+        "tensor, printing on / off, maxiters 0).")
 TOL = "tol6"
 SHARD = 2
 COND_MIN = F(1, 1000)
+REPLAY = True
 
 
 # ------------------------------------------------------------------------------------------ generation
@@ -203,6 +208,10 @@ def gen_cases(rng, tier):
                 "maxiters": maxit, "stoptol": stoptol, "fixsigns": fixsigns, "printitn": printitn}
         if extra:
             args.update(extra)
+        # wave 4: forward replay of the recorded updates — one update per sweep (rotating mode), every update for one case in
+        # six (thorough) / eight (quick); decided by the case's position, no draw from rng
+        args["replay_salt"] = len(cases) % 7
+        args["replay"] = "all" if len(cases) % (6 if big else 8) == 3 else "one"
         cases.append(Case("cp_als", args, nt))
 
     kinds = ["dense", "sparse", "ttensor", "sum"]
@@ -302,6 +311,36 @@ def gen_cases(rng, tier):
         od = sorted(rng.sample(range(3), rng.choice([1, 2])))
         add(_data_spec(rng, rng.choice(kinds), shape), R, {"w": [1] * R, "f": _rand_factors(rng, shape, R, -3, 3)}, None, od, [1, 2], 1e-4,
             rng.random() < 0.7)
+    # (vi) wave 4 — storage dtype of dense data: the same kind of integer-valued problem held as uint8 / int8 / int16 / int32 / int64 /
+    #      float32 / float64 (image / count data), with magnitudes such that the sum of squares exceeds the range of the narrow
+    #      integer type; alone and as the dense part of a sum tensor; printing on and off; maxiters = 0 as well
+    DT = [("uint8", [25, 50], True), ("int8", [11, 25], False), ("int16", [1000, 6000], False), ("int32", [10 ** 5, 10 ** 8], False),
+          ("int64", [1, 10 ** 4], False), ("float32", [1, 7], False), ("float64", [3], False)]
+    for rep_, (dt, mults, nonneg) in enumerate(DT * (3 if big else 1)):
+        spec = None
+        for _try in range(20):
+            shape = rng.choice(SHAPES3 + [[4, 3], [2, 3, 2, 2]])
+            cand = _data_spec(rng, "dense", shape)
+            mlt = rng.choice(mults)
+            cand["data"] = [(abs(v) if nonneg else v) * mlt for v in cand["data"]]
+            cand["dtype"] = dt
+            R = rng.choice([1, 2])
+            if min(U9.unfolding_ranks(shape, cand["data"])) >= R:
+                spec = cand
+                break
+        if spec is None:
+            continue
+        N = len(shape)
+        if rep_ == 4 or (rep_ >= 7 and rep_ % 4 == 3):
+            spec = {"kind": "sum", "shape": shape, "parts": [spec, _data_spec(rng, "vsparse", shape)]}
+        init = {"w": [1] * R, "f": _rand_factors(rng, shape, R)} if rng.random() < 0.7 else {"seed": rng.randrange(1000)}
+        add(spec, R, init, None if rng.random() < 0.5 else rng.sample(range(N), N), None, [1, 2], rng.choice([0.0, 1e-4]),
+            rng.random() < 0.5, printitn=rep_ % 2)
+        if rep_ % 3 == 0 and spec["kind"] == "dense":
+            cases.append(Case("cp_als_maxiters0", {"data": spec, "rank": R, "init": {"w": [rng.choice([1, 2, -2]) for _ in range(R)],
+                                                                                   "f": _rand_factors(rng, shape, R)},
+                                                   "dimorder": None, "optdims": None, "maxiters": [0], "stoptol": 1e-4,
+                                                   "fixsigns": True, "printitn": (rep_ // 3) % 2}, True))
     # planted rank-3 problems: the final arrange must apply EVERY permutation of 3 components (two of them are 3-cycles)
     r3kinds = ["dense", "sparse", "ttensor", "sum"]
     j = 0
@@ -605,8 +644,75 @@ def _reference(a):
     return U9.exact_sweep(shape, X, U0, _dims(a), a["rank"])
 
 
+def _frmx(m):
+    return [[F(x) for x in row] for row in m]
+
+
+def _rec_numeric(rec):
+    return all(not isinstance(x, str) for call in rec for f in call["U"] for row in f for x in row)
+
+
+def _replay_parts(a, last_raw, dims):
+    """wave 4: the recorded mode updates of EVERY sweep of the longest run replayed forward through the executable update of the
+    model (Model/C09Replay.v: exact MTTKRP of the data's denotation, exact Gauss-Jordan solve, cp_als's own column scaling) and
+    compared with the NEXT recorded factor list (the last one with the returned model).  args["replay"] = "all": every update of
+    every sweep + the returned model; otherwise ONE update per sweep (the mode rotates with the sweep and the case's salt), so that
+    every sweep of every case and, over the cases, every position of the mode order is replayed.  For an all-integer start the whole
+    first sweep is chained through als_sweep as well (later sweeps start from floats: the chained rationals grow to > 10^4 bits).
+    Runs on the data AS GIVEN to pyttb (2^k-scaled: the max(., 1) scaling of the later sweeps is not scale-free).  An update whose
+    exact Gram-Hadamard matrix has conditioning ratio < COND_MIN is not compared forward (the backward certificate still is).
+    Returns (list of Gallina conjuncts, number of replayed updates, number gated)."""
+    rec = last_raw.get("rec")
+    if not rec or not _rec_numeric(rec) or not _numeric(last_raw["model"]):
+        return [], 0, 0
+    R = a["rank"]
+    D = len(dims)
+    mode = a.get("replay", "one")
+    salt = int(a.get("replay_salt", 0))
+    k2 = int(a.get("scale_exp", 0))
+    c = F(2) ** k2
+    parts = []
+    gated = 0
+    done = 0
+    K = U9.gqk(last_raw["model"]["weights"], last_raw["model"]["factors"])
+    nsw = (len(rec) + D - 1) // D
+    for k, call in enumerate(rec):
+        it = k // D
+        if mode != "all":
+            pos = (it + salt) % D
+            if it == nsw - 1 and pos == D - 1 and D > 1:
+                pos = D - 2              # the last update of the run has no successor record: take its predecessor in the last sweep
+            if k % D != pos:
+                continue
+        n = call["n"]
+        Ub = [_frmx(f) for f in call["U"]]
+        if U9.cond_ratio(U9.ymat(Ub, n, R)) < COND_MIN:
+            gated += 1
+            continue
+        Ubs = "[" + "; ".join(U9.gqmx(f) for f in call["U"]) + "]"
+        if k + 1 < len(rec):
+            Uas = "[" + "; ".join(U9.gqmx(f) for f in rec[k + 1]["U"]) + "]"
+            parts.append(f"update_replay_ok {TOL} s XR {R} {it} {Ubs} {Uas} {n}")
+            done += 1
+        elif mode == "all" or D == 1:
+            parts.append(f"last_update_replay_ok {TOL} s XR {R} {it} {Ubs} {n} {K}")
+            done += 1
+    # the whole first sweep through als_sweep, from an all-integer start
+    if "f" in a["init"] and len(rec) > D and len(rec) % D == 0:
+        ref = _reference(a)
+        if ref is not None and ref[2] and ref[1] >= COND_MIN:
+            Ubs = "[" + "; ".join(U9.gqmx(f) for f in rec[0]["U"]) + "]"
+            Uas = "[" + "; ".join(U9.gqmx(f) for f in rec[D]["U"]) + "]"
+            parts.append(f"sweep_replay_ok {TOL} s XR {R} 0 {gnlist(dims)} {Ubs} {Uas}")
+    if not parts:
+        return [], done, gated
+    xr = "X" if k2 == 0 else f"(memo s (xscale {gq(c)} X))"
+    return [f"(let XR := {xr} in " + " && ".join(parts) + ")"], done, gated
+
+
 def coq_check(c, o):
     a = c.args
+    o_raw = o
     o = _descaled(a, o)
     if c.op == "cp_als_maxiters0":
         # maxiters = 0 is an admissible limit (theorem C09_maxiters0): no sweep; the returned model is the arranged start WITH its
@@ -690,12 +796,14 @@ def coq_check(c, o):
             n = rec[k]["n"]
             Ub = "[" + "; ".join(U9.gqmx(f) for f in rec[k]["U"]) + "]"
             Ua = "[" + "; ".join(U9.gqmx(f) for f in rec[k + 1]["U"]) + "]"
-            parts.append(f"update_ok {TOL} s X {R} {Ub} {Ua} {n} {U9.gqrow([F(x) for x in w])}")
+            parts.append(f"update_ok_rel {TOL} s X {R} {Ub} {Ua} {n} {U9.gqrow([F(x) for x in w])}")
         # the order of the recorded modes is the reduced dimorder, repeated
         want = [dims[k % len(dims)] for k in range(len(rec))]
         parts.append(gbool([x["n"] for x in rec] == want and len(rec) == len(dims) * (last["iters"] + 1)))
         # the returned initial guess is the one actually used: the factors of the first mttkrp call are the returned guess's factors
         parts.append(gbool(len(rec) > 0 and rec[0]["U"] == last["init"]["factors"]))
+        if REPLAY:
+            parts += _replay_parts(a, o_raw["runs"][-1], dims)[0]
     return pre + " && ".join(parts)
 
 
@@ -730,6 +838,8 @@ def oracle(c, o):
         k = r["model"]
         if not _numeric(k):
             return "non-finite numbers in the returned model"
+        if isinstance(r["fit"], str) or isinstance(r["normres"], str):
+            return f"reported fit / normresidual is not a finite number: fit={r['fit']} normresidual={r['normres']}"
         if len(k["weights"]) != R or [len(f) for f in k["factors"]] != shape:
             return "returned model has the wrong rank or shape"
         w = [F(x) for x in k["weights"]]
@@ -824,9 +934,11 @@ CORRESPONDENCE_ONLY = ["numpy's norm / argsort meeting the oracle contracts of C
                        "numpy.random.uniform delivering one sequential stream (init='random' itself is proved over a captured stream: "
                        "C09_init_random_*; the returned guess is compared in Coq with init_random of the captured stream)",
                        "init='nvecs' (returned guess = guess used; the vectors themselves are C14's)",
-                       "ttensor.mttkrp (no algorithm model in C02), innerprod / norm of every holder, LAPACK solve meeting A.Y = P "
-                       "(through the certificates); tensor / sptensor / ktensor / sumtensor.mttkrp are PROVED (C02 algorithm models, "
-                       "bridged by C09_holder_*)"]
+                       "innerprod / norm of every holder inside cp_als (normX, the printing branch, maxiters = 0), LAPACK solve meeting A.Y = P and "
+                       "numpy's 2-norm / max / division kernels (replayed forward and certified backward on every sampled run); "
+                       "tensor / sptensor / ktensor / ttensor / sumtensor.mttkrp are PROVED (C02 algorithm models, bridged by C09_holder_*), "
+                       "the inner and outer loops of cp_als are tied to the source through the generated skeleton (C09_gen_sweep_bridge, "
+                       "W4S_C09_cpals_bridge)"]
 ASSUMPTIONS = ["IEEE-754 rounding, LAPACK solve, sqrt and numpy.random are oracles: theorems are exact-arithmetic; real runs are sampled",
                "tolerance 1e-6 relative for the exact recomputation of sampled runs; ill-conditioned cases skipped (exact rule in RULE)"]
 EXPLANATION = ("PARTIAL: the for-all-inputs part is carried by exact-arithmetic theorems about the CP-ALS model; pyttb's real runs are "
